@@ -363,6 +363,13 @@ func readSessionStop(stream []byte, crc bool, sched []int, plain []byte, valid b
 		}
 	}
 	closeErr = r.Close()
+	// the verdict must not depend on how often it is asked for: a later Close that reports success counts as the
+	// reader's success (and has to meet the same conditions)
+	for i := 0; i < 2 && closeErr != nil; i++ {
+		if again := r.Close(); again == nil {
+			closeErr = nil
+		}
+	}
 	ce := "nil"
 	if closeErr != nil {
 		ce = "other"
